@@ -46,6 +46,40 @@ def run_case(nest, nneg, ending, sends=0, seed=0, shuffle=False):
     return w.finish()
 
 
+def run_term_case(nconn, nterm, who_term, ending, seed, size=3000, steps_after_send=3):
+    ''' Transfers are under way on every connection, the user of some connections asks those sessions to
+    terminate, then the agent is asked to end: transfers in progress complete unless the ending is stop(). '''
+    rnd = random.Random(seed)
+    w = AgentWorld()
+    w.listen('P')
+    paths = [w.connect('A', 'P') for _ in range(nconn)]
+    w.run()
+    for (k, path) in enumerate(paths):
+        w.send('A', path, bytes([70 + k]) * (size + 700 * k))
+    w.run(rnd=rnd, only=steps_after_send)
+    for path in rnd.sample(paths, min(nterm, len(paths))):
+        if who_term == 'A':
+            w.terminate('A', path)
+        else:
+            # the accepting agent numbers its connections in the order it accepted them
+            ppaths = sorted(str(p) for p in w.agent['P'].get_connections())
+            if ppaths:
+                w.terminate('P', rnd.choice(ppaths))
+        w.run(rnd=rnd, only=rnd.choice([0, 1, 4]))
+    for step in [x.strip() for x in ending.replace('+', ',shutdown ').split(',')]:
+        if step == 'none':
+            continue
+        (what, who) = step.split()
+        if what == 'shutdown':
+            w.run_accepts(who)
+        getattr(w, what)(who)
+        w.run(rnd=rnd, only=rnd.choice([0, 2, 6]))
+    w.run(rnd=rnd, max_steps=20000)
+    w.conns('A')
+    w.conns('P')
+    return w.finish()
+
+
 def executions(tier, seed):
     rnd = random.Random(seed * 61 + 7)
     traces, metas = [], []
@@ -60,4 +94,14 @@ def executions(tier, seed):
         sends = rnd.choice([0, 0, 1, 3])
         traces.append(run_case(nest, nneg, ending, sends=sends, seed=seed * 1000 + i, shuffle=True))
         metas.append({'established': nest, 'not_negotiated': nneg, 'ending': ending, 'bundles': sends, 'order': 'random'})
+    # single sessions asked to terminate while their transfers are in progress, then the agent is asked to end
+    k = 0
+    for (nconn, nterm, who_term, ending) in itertools.product((1, 2, 3), (1, 2), ('A', 'P'),
+                                                              ('shutdown A', 'shutdown P', 'shutdown A+P', 'none')):
+        for rep in range(1 if tier == 'quick' else 8):
+            k += 1
+            steps = [0, 1, 3, 9, 30][(k + rep) % 5]
+            traces.append(run_term_case(nconn, nterm, who_term, ending, seed * 977 + k * 31 + rep, steps_after_send=steps))
+            metas.append({'established': nconn, 'sessions_terminated_by_user': nterm, 'by': who_term, 'ending': ending,
+                          'bundles': nconn, 'steps_after_send': steps, 'rep': rep})
     return traces, metas
